@@ -735,7 +735,7 @@ def binding(ctx):
     sc = [f for f in P.fns.values() if f.id.endswith('module::Module::scope')]
     oks = False
     if sc and len(sc[0].exits()) == 1:
-        e = expand(sc[0], sc[0].exits()[0]['expr'])
+        e = expand(sc[0], seq_chain(sc[0], sc[0].exits()[0]['expr']), keep=lambda ty: ty.startswith('std::vec::Vec<'))
         ch = find_calls(e, 'Iterator::chain')
         if len(ch) == 1:
             a, b = ch[0][2][0], ch[0][2][1]
